@@ -20,7 +20,7 @@ ALSO = {
 }
 MUTANT_CHECKS = {
     "c02-remove-write-before-check": ["C02"], "c04-remove-c-order": ["C04"],
-    "revert-fix-condense-log-zero": ["C11"], "revert-fix-constructor-validation": ["C20"], "revert-fix-dilutionplan-budget": ["C14"], "revert-fix-dilutionplan-fractional-vmax": ["C14"], "revert-fix-iterator-tip": ["C10"], "revert-fix-labwares-format": ["C09"], "revert-fix-integer-dtype-volume": ["C04", "C06"],
+    "revert-fix-condense-log-zero": ["C11"], "revert-fix-constructor-validation": ["C20"], "revert-fix-dilutionplan-budget": ["C14"], "revert-fix-dilutionplan-fractional-vmax": ["C14"], "revert-fix-iterator-tip": ["C10"], "revert-fix-labwares-format": ["C09"], "revert-fix-literal-label": ["C11"], "revert-fix-integer-dtype-volume": ["C04", "C06"],
     "revert-fix-distribute-order": ["C03"], "revert-fix-distribute-same-labware-log": ["C11"], "revert-fix-evo-selection": ["C10", "C13"],
     "revert-fix-gwl-suffix": ["C17"], "revert-fix-lvh-count": ["C11"], "revert-fix-nan-composition": ["C05"],
     "revert-fix-negative-transfer-volume": ["C07"], "revert-fix-partition-volume": ["C06"], "revert-fix-randomize-shapes": ["C15"],
